@@ -63,8 +63,76 @@ def gen(tier, rng):
     return cases
 
 
+ROW_KINDS = ["typed", "typed_ref", "typed_crop", "typed_crop_mut", "nested", "nested_mut"]
+
+
+def rows_cases(tier, rng):
+    """the row iterators of every container kind, read back through identity tags"""
+    cases = []
+    pads = [(0, 0, 0, 0), (1, 2, 1, 0), (2, 1, 0, 3), (0, 3, 2, 1), (3, 5, 1, 2)]
+    sizes = [(0, 0), (0, 3), (3, 0), (1, 1), (2, 5), (5, 2), (4, 4), (3, 9), (7, 6)]
+    n = 0
+    for kind in ROW_KINDS:
+        for (w, h) in sizes:
+            for pad in pads:
+                n += 1
+                l, t, r, b = pad
+                if kind in ("typed", "typed_ref"):
+                    l = t = r = b = 0
+                else:
+                    if w == 0:
+                        r = max(r, 1)
+                    if h == 0:
+                        b = max(b, 1)
+                pw, ph = w + l + r, h + t + b
+                calls, ecalls = [], []
+                for start in range(0, h + 2):
+                    calls.append({"m": "iter_rows", "start": start})
+                    if kind in ("typed", "typed_crop_mut", "nested_mut") and start <= h:
+                        calls.append({"m": "iter_rows_mut", "start": start})
+                    for mx in sorted({0, 1, h - 1, h, h + 3} - {-1}):
+                        if mx >= start or rz.pick(n + start + mx, 501, [0, 1]):
+                            calls.append({"m": "iter_2_rows", "start": start, "max": mx})
+                            calls.append({"m": "iter_4_rows", "start": start, "max": mx})
+                if kind in ("typed", "typed_crop_mut", "nested_mut"):
+                    calls += [{"m": "iter_2_rows_mut"}, {"m": "iter_4_rows_mut"}]
+                q = 4
+                for (y0n, stepn, mx) in ((0, q, h), (2, q, h + 1), (1, 1, 3 * h + 2), (0, 3 * q, 2), (q * max(h - 1, 0), 2, 5), (3, 5, 7), (0, q * (h + 1), 1),
+                                         (q * h, q, 2), (2, 2 * q + 1, h)):
+                    calls.append({"m": "step", "y0": {"n": y0n, "q": q}, "step": {"n": stepn, "q": q}, "max": mx, "y0n": y0n, "stepn": stepn, "q": q})
+                case = {"op": "rows", "kind": kind, "pw": pw, "ph": ph, "calls": calls}
+                if kind.startswith("nested"):
+                    o = (l // 2, t // 2, r // 2, b // 2)
+                    case["outer"] = list(o)
+                    case["view"] = [l - o[0], t - o[1], w, h]
+                else:
+                    case["view"] = [l, t, w, h]
+                case["echo"] = {"al": l, "at": t, "w": w, "h": h, "kind": kind,
+                                "calls": [{k: v for k, v in c.items() if k not in ("y0", "step")} for c in calls]}
+                cases.append(case)
+    return cases
+
+
 def run(res, tier, seed):
     rng = random.Random(seed)
+    r = vlib.run_tlc_mc("MC_Views", cfg="MC_Rows.cfg", workers=4)
+    res.add_mc(r, "row iterators (iter_rows / iter_N_rows / iter_rows_with_step) stay inside the view, in order; all views in parents <= 4x4")
+    if not r["ok"]:
+        res.violation(what="MC_Rows invariant violated", detail=r["error"])
+    rcases = rows_cases(tier, rng)
+    for i, c in enumerate(rcases):
+        c["id"] = i
+    for profile in ("release", "dbg"):
+        binary = vlib.build_harness(profile)
+        wd = vlib.workdir("c13rows_" + profile)
+        recs, tpath = vlib.run_harness(binary, rcases, wd)
+        tr = vlib.run_tlc_trace("TraceRows", tpath)
+        res.add_trace(tr, len(rcases), "TraceRows(" + profile + ")")
+        for (cid, reason) in tr["bad"]:
+            c = rcases[cid]
+            res.violation(what="C13 row iterator " + reason, reason=reason, build=profile, kind=c["kind"], view=c["view"], ret=recs[cid].get("ret"))
+    res.cov["row_iterator_cases_per_build"] = len(rcases)
+    res.cov["row_iterator_calls"] = sum(len(c["calls"]) for c in rcases)
     r = vlib.run_tlc_mc("MC_Views", workers=8)
     res.add_mc(r, "a view exposes exactly its rectangle; splits tile; all views in parents <= 3x3")
     if not r["ok"]:
